@@ -43,6 +43,7 @@ func (t *tailWriter) Write(p []byte) (int, error) {
 
 type c13History struct {
 	name   string
+	cols   []model.ColDef // schema override (default: the mixed schema)
 	keyed  bool
 	big    bool // multi-frame snapshot: frame boundaries +-2 and every 997th (coarse: 9973rd) byte
 	coarse bool
@@ -63,9 +64,18 @@ func c13Cols(h c13History) genSpec {
 	return genSpec{keyed: h.keyed, logger: ""}
 }
 
+func (h c13History) config(spec genSpec) model.Config {
+	cfg := spec.config(0)
+	if h.cols != nil {
+		cfg.Cols = h.cols
+		cfg.Indexes = nil
+	}
+	return cfg
+}
+
 func (h c13History) prepare() (*c13Built, error) {
 	b := &c13Built{h: h, spec: c13Cols(h)}
-	w := model.NewWorld(b.spec.config(0))
+	w := model.NewWorld(h.config(b.spec))
 	b.w = w
 	h.build(w)
 	b.states = append(b.states, w.M.Clone())
@@ -74,7 +84,7 @@ func (h c13History) prepare() (*c13Built, error) {
 		// a state larger than one s2 block is written in several calls, all but the
 		// last while a block latch is held: fire on the LAST state write (the final
 		// flush), found by a dry run on an identical collection
-		dry := model.NewWorld(b.spec.config(0))
+		dry := model.NewWorld(h.config(b.spec))
 		h.build(dry)
 		cnt := &tailWriter{}
 		if err := dry.C.Snapshot(cnt); err != nil {
@@ -151,7 +161,7 @@ func s2FrameBoundaries(b []byte) (out []int) {
 
 // restoreCase restores the first n bytes and judges the outcome.
 func (b *c13Built) restoreCase(n int) (key string, nontrivial bool, sample any, vs []eng.Violation) {
-	t := b.w.Twin(b.spec.config(0), true)
+	t := b.w.Twin(b.h.config(b.spec), true)
 	defer t.Close()
 	var err error
 	func() {
@@ -255,6 +265,27 @@ func c13Histories(tier string) []c13History {
 			}
 			w.Txn(acts, false)
 		}
+		// a single column value larger than one s2 block that is the LAST thing in the
+		// state stream (last column of the last block), with and without a log tail
+		lastBig := func(w *model.World) {
+			var acts []model.Act
+			for i := 0; i < 20; i++ {
+				acts = append(acts, model.Act{Op: "insert", W: []model.Write{W("n", V(uint64(i))), W("s", S(noise(65535, 200+i)))}})
+			}
+			w.Txn(acts, false)
+		}
+		twoCols := []model.ColDef{{Name: "n", Kind: "int"}, {Name: "s", Kind: "string"}}
+		hs = append(hs, c13History{name: "multi-frame/big-last-column/no-tail", big: true, coarse: true, cols: twoCols, build: lastBig})
+		hs = append(hs, c13History{name: "multi-frame/big-last-column/tail-big-commit", big: true, coarse: true, cols: twoCols, build: lastBig, tail: [][]model.Act{
+			{{Op: "insert", W: []model.Write{W("n", V(7))}}, {Op: "put", Off: 0, W: []model.Write{W("s", S(noise(65535, 300)))}}, {Op: "put", Off: 1, W: []model.Write{W("s", S(noise(65535, 301)))}},
+				{Op: "put", Off: 2, W: []model.Write{W("s", S(noise(65535, 302)))}}, {Op: "put", Off: 3, W: []model.Write{W("s", S(noise(65535, 303)))}},
+				{Op: "put", Off: 4, W: []model.Write{W("s", S(noise(65535, 304)))}}, {Op: "put", Off: 5, W: []model.Write{W("s", S(noise(65535, 305)))}},
+				{Op: "put", Off: 6, W: []model.Write{W("s", S(noise(65535, 306)))}}, {Op: "put", Off: 7, W: []model.Write{W("s", S(noise(65535, 307)))}},
+				{Op: "put", Off: 8, W: []model.Write{W("s", S(noise(65535, 308)))}}, {Op: "put", Off: 9, W: []model.Write{W("s", S(noise(65535, 309)))}},
+				{Op: "put", Off: 10, W: []model.Write{W("s", S(noise(65535, 310)))}}, {Op: "put", Off: 11, W: []model.Write{W("s", S(noise(65535, 311)))}},
+				{Op: "put", Off: 12, W: []model.Write{W("s", S(noise(65535, 312)))}}, {Op: "put", Off: 13, W: []model.Write{W("s", S(noise(65535, 313)))}},
+				{Op: "put", Off: 14, W: []model.Write{W("s", S(noise(65535, 314)))}}, {Op: "put", Off: 15, W: []model.Write{W("s", S(noise(65535, 315)))}},
+				{Op: "put", Off: 16, W: []model.Write{W("s", S(noise(65535, 316)))}}, {Op: "put", Off: 17, W: []model.Write{W("s", S(noise(65535, 317)))}}}}})
 		hs = append(hs, c13History{name: "multi-frame/tail-2", big: true, coarse: tier == "quick", build: bigRows, tail: [][]model.Act{
 			{{Op: "put", Off: 0, W: []model.Write{W("s", S(noise(60000, 99)))}}},
 			{{Op: "del", Off: 1}}}})
@@ -278,6 +309,28 @@ type c13Log struct {
 	name    string
 	commits []commit.Commit
 	data    []byte
+	frames  bool // test only the s2 frame boundaries +-2 (big logs)
+}
+
+func (l *c13Log) points() []int {
+	if !l.frames {
+		out := make([]int, len(l.data)+1)
+		for i := range out {
+			out[i] = i
+		}
+		return out
+	}
+	seen := map[int]bool{}
+	var out []int
+	for _, fb := range append(s2FrameBoundaries(l.data), 0, len(l.data)) {
+		for d := -2; d <= 2; d++ {
+			if n := fb + d; n >= 0 && n <= len(l.data) && !seen[n] {
+				seen[n] = true
+				out = append(out, n)
+			}
+		}
+	}
+	return out
 }
 
 func c13Logs() (out []*c13Log) {
@@ -297,6 +350,24 @@ func c13Logs() (out []*c13Log) {
 		return commit.Commit{ID: id, Chunk: chunk, Updates: []*commit.Buffer{r, b}}
 	}
 	all := []commit.Commit{mk(11, 0, 1, 2, 3), mk(12, 1, 16384, 16390), mk(13, 0, 5), mk(14, 1, 16385, 16384, 20000)}
+	{
+		// one commit whose last update is larger than one s2 block
+		b := commit.NewBuffer(16)
+		b.Reset("s")
+		for i := 0; i < 20; i++ {
+			b.PutString(commit.Put, uint32(i), noise(65535, 400+i))
+		}
+		r := commit.NewBuffer(16)
+		r.Reset("row")
+		r.PutOperation(commit.Insert, 0)
+		big := commit.Commit{ID: 21, Chunk: 0, Updates: []*commit.Buffer{r, b}}
+		var buf bytes.Buffer
+		lg := commit.Open(&buf)
+		lg.Append(all[0])
+		lg.Append(big)
+		lg.Append(all[2])
+		out = append(out, &c13Log{name: "log-with-1.3MB-commit", commits: []commit.Commit{all[0], big, all[2]}, data: append([]byte{}, buf.Bytes()...), frames: true})
+	}
 	for n := 1; n <= len(all); n++ {
 		var buf bytes.Buffer
 		lg := commit.Open(&buf)
@@ -399,9 +470,15 @@ func init() {
 			units = append(units, schedUnits("C13", scs)...)
 			for _, l := range c13Logs() {
 				l := l
+				pts := l.points()
 				units = append(units, &eng.FlatSpec{UnitName: l.name, Prop: "C13", Chunk: 128, Outcomes: true,
-					N:    func() int { return len(l.data) + 1 },
-					Case: func(i int) (string, bool, any, []eng.Violation) { return l.rangeCase(i) }})
+					N: func() int { return len(pts) },
+					Case: func(i int) (string, bool, any, []eng.Violation) {
+						if i >= len(pts) {
+							i = len(pts) - 1
+						}
+						return l.rangeCase(pts[i])
+					}})
 			}
 			return units
 		},
